@@ -4,7 +4,9 @@
   Fully proved in LexprModel/Proofs/SerdeRT.lean (imported here): `C14_shape_seq`, `C14_shape_tuple`,
   `C14_shape_struct`, `C14_shape_option`, `C14_shape_unit_variant`, `C14_shape_int`, and the acceptance
   clause: `C14_accept_vector_for_seq`, `C14_accept_list_for_tuple(_variant)`, `C14_reject_improper_seq`,
-  `C14_reject_improper_tuple`.
+  `C14_reject_improper_tuple`, and — after the repair of `VariantAccess::tuple_variant` (it now calls
+  `deserialize_tuple`, so an improper tail beyond the last item is seen) — `C14_reject_improper_tuple_variant`
+  (`_de` at the entry point) with `C14_tuple_variant_surplus` (a proper over-long payload is still accepted).
 -/
 import LexprModel.Proofs.SerdeRT
 namespace Lexpr
@@ -94,6 +96,14 @@ theorem C14_struct_field (n : List UInt8) (t : Ty) (fs : FieldList) (d : Data) (
   simp only [serFields]
   cases ser t d <;> simp
   cases serFields fs ds <;> simp
+
+/-- the rejection clause for the items of a tuple variant: `(name x… . tl)` with a non-list tail is a
+    data error, however many items there are (restated from LexprModel/Proofs/SerdeRT.lean) -/
+theorem C14_reject_improper_tuple_variant' (vs : VariantList) (name : List UInt8) (j : Nat) (ts : TyList)
+    (h : vs.find name 0 = some (j, .tuple ts))
+    (xs : List Value) (hxs : xs ≠ []) (tl : Value) (hnull : tl.isNull = false) (hcons : tl.isCons = false) :
+    de (.enum vs) (.cons (.symbol name) (Value.append xs tl)) = .dataErr :=
+  C14_reject_improper_tuple_variant_de vs name j ts h xs hxs tl hnull hcons
 
 example : ser (.tuple (.cons (.int .u8) (.cons .str .nil))) (.seq [.int 1, .str [116]]) =
     some (.vector [.number (.pos 1), .string [116]]) := by
